@@ -243,7 +243,7 @@ def _make_world(seed, kind):
     if kind == "events":
         return c14.event_world(seed, twins=False), False      # exact positional ties are outside the quantifier of C11
     if kind == "noise-free":
-        w = world2.rich_world(seed, n_chroms=3, genes_per_chrom=3, reads_per_t=0, hidden_cov=0, multimappers=False, unmapped=0, extra_len=152000)
+        w = world2.rich_world(seed, n_chroms=3, genes_per_chrom=3, reads_per_t=0, hidden_cov=0, multimappers=False, unmapped=0, extra_len=170000)
         rng = w.rng
         # unannotated isoforms whose first (last) exon begins (ends) in the middle of an intron of the annotated isoform, on both strands:
         # the left-hand and the right-hand version are mirror images of each other
@@ -390,6 +390,35 @@ def _make_world(seed, kind):
                     tail = {"polya": 30} if strand == "+" else {"polyt": 30}
                     w.make_read(chrom, ex, flag=16 * (j % 2), truth={"src": g.id + ".t1", "class": "annotated-end" if j < 12 else "inner-polya-site"}, **tail)
                 p += 2400 + 2500
+        # well covered unannotated four-exon transcripts (105 reads with slightly different ends) plus ONE stray read that carries an extra exon
+        # beyond the 5' end (left for '+', right for '-'): a coverage-1 dead branch next to a well covered intron, on either side
+        for ci, chrom in enumerate(w.chrom_order[:2]):
+            p = max([g.end for g in w.genes + thin if g.chrom == chrom] + [1000]) + 3500
+            for k, strand in enumerate("+-"):
+                if p + 6500 > w.chrom_len(chrom):
+                    break
+                a = [(p, p + 399), (p + 1000, p + 1249), (p + 1900, p + 2199), (p + 2900, p + 3399)]
+                g = Gene("STRAY%d_%d" % (ci + 1, k + 1), chrom, strand)
+                g.hidden.append(Transcript(g.id + ".h1", g.id, chrom, strand, a, False, "well-covered-novel-with-a-stray-read"))
+                for intr in g.hidden[0].introns:
+                    w.plant_sites(chrom, intr, strand)
+                thin.append(g)
+                tail = {"polya": 30} if strand == "+" else {"polyt": 30, "flag": 16}
+                for j in range(105):
+                    ex = list(a)
+                    if strand == "+":
+                        ex[0] = (a[0][0] + (j % 7) * 3, a[0][1])
+                    else:
+                        ex[-1] = (a[-1][0], a[-1][1] - (j % 7) * 3)
+                    w.make_read(chrom, ex, truth={"src": g.id + ".h1", "class": "exact"}, **tail)
+                if strand == "+":
+                    stray = [(p - 900, p - 700), (p, a[0][1])] + a[1:]          # the stray intron ends right where the true reads begin
+                    w.plant_sites(chrom, (p - 699, p - 1), strand)
+                else:
+                    stray = a[:-1] + [(a[-1][0], a[-1][1]), (a[-1][1] + 700, a[-1][1] + 900)]
+                    w.plant_sites(chrom, (a[-1][1] + 1, a[-1][1] + 699), strand)
+                w.make_read(chrom, stray, truth={"src": g.id + ".h1", "class": "stray-read-with-an-extra-5prime-exon"}, **tail)
+                p += 3400 + 4500
         # unannotated three-exon transcripts seen by only two full-length reads (too few to be reported) plus unspliced 3' fragments with a
         # tail lying inside their 3'-terminal exon (on both strands; the runs on this world report novel unspliced transcripts), and
         # free-standing unspliced tailed loci of both strands
